@@ -7,6 +7,7 @@ import (
 	"fmt"
 	"runtime"
 	"strconv"
+	"strings"
 	"sync"
 	"time"
 
@@ -37,6 +38,8 @@ type sproc struct {
 	res      string
 	val      string
 	steps    int
+	after    func(p *sproc) // runs in the process's goroutine right after its controlled part returned
+	afterRes []any
 }
 
 var (
@@ -98,8 +101,8 @@ func RunSched(w *tr.Writer, tid int, s Sched) error {
 	}
 	procs := map[string]*sproc{}
 	var order []string
-	start := func(id string, isCommit bool, f func(p *sproc)) {
-		p := &sproc{id: id, arrived: make(chan string, 1), release: make(chan struct{}), finished: make(chan struct{}), isCommit: isCommit}
+	start := func(id string, isCommit bool, f func(p *sproc), after func(p *sproc)) {
+		p := &sproc{id: id, arrived: make(chan string, 1), release: make(chan struct{}), finished: make(chan struct{}), isCommit: isCommit, after: after}
 		procs[id] = p
 		order = append(order, id)
 		ready := make(chan struct{})
@@ -113,13 +116,30 @@ func RunSched(w *tr.Writer, tid int, s Sched) error {
 			schedMu.Lock()
 			delete(schedProcs, g)
 			schedMu.Unlock()
+			if p.after != nil {
+				p.after(p) // no longer a controlled process: runs through the yield points freely
+			}
 			close(p.finished)
 		}()
 		<-ready
 	}
 	for _, c := range s.Committers {
-		bc := mkBC(c)
-		start(c, true, func(p *sproc) { bc.Commit() })
+		// "b'" is a second cache object of block b committed concurrently (the block was executed twice)
+		blk := strings.TrimSuffix(c, "'")
+		bc := mkBC(blk)
+		start(c, true, func(p *sproc) { bc.Commit() }, func(p *sproc) {
+			// Commit has returned: a lookup at the block by the same goroutine
+			res, val := "miss", ""
+			if Guard(func() string {
+				if v, ok := sc.Get("k", blk); ok {
+					res, val = "hit", string(v.(*MutVal).B)
+				}
+				return "ok"
+			}) != "ok" {
+				res = "panic"
+			}
+			p.afterRes = []any{blk, res, val}
+		})
 	}
 	for _, r := range s.Readers {
 		blk := r[1]
@@ -132,7 +152,7 @@ func RunSched(w *tr.Writer, tid int, s Sched) error {
 				p.val = string(v.(*MutVal).B)
 				return "hit"
 			})
-		})
+		}, nil)
 	}
 	wait := func(p *sproc) error {
 		select {
@@ -276,7 +296,22 @@ func RunSched(w *tr.Writer, tid int, s Sched) error {
 		}
 		final = append(final, []any{b, res, val})
 	}
-	w.Emit(map[string]any{"tid": tid, "op": "sched", "blocks": s.Blocks, "writes": s.Writes, "pre": s.Pre,
-		"committers": s.Committers, "results": results, "final": final, "diverged": diverged, "drained": drained, "adv": s.Adv, "nsched": len(s.Sched), "sched": s.Sched, "readers": s.Readers})
+	// the blocks committed concurrently (a block committed twice counts once)
+	var cblocks []string
+	seenB := map[string]bool{}
+	for _, c := range s.Committers {
+		if b := strings.TrimSuffix(c, "'"); !seenB[b] {
+			seenB[b] = true
+			cblocks = append(cblocks, b)
+		}
+	}
+	after := []any{}
+	for _, c := range s.Committers {
+		if p := procs[c]; p != nil && p.afterRes != nil {
+			after = append(after, p.afterRes)
+		}
+	}
+	w.Emit(map[string]any{"tid": tid, "op": "sched", "blocks": s.Blocks, "writes": s.Writes, "pre": s.Pre, "after": after,
+		"committers": cblocks, "cprocs": s.Committers, "results": results, "final": final, "diverged": diverged, "drained": drained, "adv": s.Adv, "nsched": len(s.Sched), "sched": s.Sched, "readers": s.Readers})
 	return nil
 }
